@@ -19,6 +19,9 @@ CLAIMED = {
     "C10": ("For every pair of byte files the Coq model of `updown list` (reader, the getLines scan with its open-tract state, range and row printer) is proved equal to a declarative specification command: SNP list = the A/C/G/T columns whose base is not in the reference symbol's set, ranges = starts of maximal runs of non-A/C/G/T columns paired with their stops, counts as counted (C10_command_eq_spec); separately: the row reconstructs the class of every column (C10_list_reconstructs), ranges are ascending and pairwise non-adjacent, SNPs ascending and exact. Tied to the code by the regenerated tables and a differential run of updown.List against model and spec.",
             "Coq proof (invariant over the scan fold, induction over columns, table sweeps) + correspondence check",
             "", "5 C10"),
+    "C16": ("One reader model parametrised by the symbol conversion mirrors the five hand-copied scanner loops; proved for all inputs: the reader never panics (and terminates, being a Gallina function) on any byte stream; any layout of a set of records (any chunking into lines incl. blank lines, LF or CRLF per line, optional final newline) reads back exactly those records in order (file-level theorem through a byte-level model of bufio.ScanLines); letter case never matters; the plain reader agrees with the encoding readers; the encoding readers are the validity-only reader followed by encoding (strictness); score and A/C/G/T counts are those of the sequence. Differential run of all five readers on valid re-layouts and a malformed stream, plus a generator-side oracle for the plain reader.",
+            "Coq proof (simulation/invariant over the line fold, induction over layouts, table sweeps) + correspondence check",
+            "UTF-8 white space in headers and the 1 MiB token limit are outside the model.", "5 C16"),
     "C03": ("For every pair of byte files the Coq model of `snps` (reader over the dumped encoding tables, bitwise "
             "test, decoder, row printer) is proved equal to the specification command built from the IUPAC meaning "
             "of the symbols (C03_command_eq_spec), with soundness, completeness, ascending order and "
@@ -76,7 +79,11 @@ def main():
         json.dump(man, f, indent=1)
 
 
-HOOK_COMMITS = []
+import subprocess
+try:
+    HOOK_COMMITS = subprocess.check_output(["git", "-C", "/repo", "log", "--format=%h", "--grep=^verif hook"]).decode().split()
+except Exception:
+    HOOK_COMMITS = []
 
 if __name__ == "__main__":
     main()
